@@ -10,9 +10,17 @@ namespace FastTicc.MainLoop
 
 variable {σ ε L : Type} [DecidableEq L] (P : Phases σ ε) (labels : σ → L)
 
-/-- the source's repopulation guard is `current_iteration > 0`. -/
-theorem constants_tie : Constants.repopAfterRound = 0 := by
-  rfl
+/-- the source's repopulation guard is `current_iteration > 0`; its round calls the four phases in
+the order repopulate, statistics, optimise, relabel with the repopulation under that guard; its
+loop is `for … in range(iteration_limit)` (all re-extracted from the AST on every run). -/
+theorem constants_tie : Constants.repopAfterRound = 0 ∧ Constants.phaseOrder = [1, 2, 3, 4] ∧
+    Constants.repopGuarded = 1 ∧ Constants.loopOverLimit = 1 := by
+  exact ⟨rfl, rfl, rfl, rfl⟩
+
+/-- the round the model executes is TRANSLATED from the source's phase order on every run
+(`MainLoop.round` folds over `Constants.phaseOrder`); it is the round this property describes. -/
+theorem round_translated_eq_spec (i : Nat) (s : σ) : round P i s = roundSpec P i s :=
+  round_eq_spec P i s
 
 /-- round 0 is stats → opt → relabel; every later round is repop → stats → opt → relabel,
 each phase applied to the previous phase's output. -/
